@@ -1,26 +1,49 @@
-(* C02 - Instances mirror their definition. Property theorems only. *)
+(* C02 - Instances mirror their definition: reference sets and outer pins track all edits.
+   Property theorems only. *)
 From Coq Require Import List.
-From SV Require Import Base.Base IR.State IR.NS IR.Ops Proofs.Inv2a.
+From SV Require Import Base.Base IR.State IR.NS IR.Ops Proofs.Inv2a Proofs.InvP Proofs.InvW Proofs.C01_full.
 
-(* reference-set clause: an instance referencing d is in d's reference set and in no other;
-   preserved by every op with any arguments and any outcome except the stuck one *)
+(* at every prefix of every history (any ops, arguments, outcomes) ... *)
+Theorem C02_reachable : forall ops, Inv (run ops init).
+Proof. exact reachable_inv. Qed.
+Print Assumptions C02_reachable.
+
+Theorem C02_step : forall s o, Inv s -> Inv (fst (step s o)) /\ snd (step s o) <> Some XStuck.
+Proof. exact step_inv. Qed.
+Print Assumptions C02_step.
+
+(* ... an instance is in the reference set of the definition it references and of no other *)
+Theorem C02_reference_sets : forall s, Inv s ->
+  (forall n d, In n (drefs s d) <-> iref s n = Some d) /\ (forall d, NoDup (drefs s d)).
+Proof. intros s H. split; [exact (inv_reference_sets s H)|exact (i2_nodup s (inv_r s H))]. Qed.
+Print Assumptions C02_reference_sets.
+
+(* ... and carries exactly one outer pin per inner pin its definition currently has *)
+Theorem C02_outer_pins : forall s, Inv s ->
+  (forall n i, In i (keys s n) <->
+     (exists d p, iref s n = Some d /\ par s RPorts p = Some d /\ par s RPins i = Some p)) /\
+  (forall n, NoDup (keys s n)).
+Proof. intros s H. split; [exact (inv_outer_pins s H)|exact (inv_outer_pins_once s H)]. Qed.
+Print Assumptions C02_outer_pins.
+
+(* outer pins that disappear were taken off their wire: no wire lists an outer pin that the
+   instance does not carry *)
+Theorem C02_no_dropped_pin_on_wire : forall s, Inv s ->
+  forall w n i, In (POut n i) (wpins s w) -> In i (keys s n).
+Proof. exact inv_no_dropped_pin_on_wire. Qed.
+Print Assumptions C02_no_dropped_pin_on_wire.
+
+(* the reference-set clause alone (kept from the first proof round) *)
 Theorem C02_reference_sets_step : forall s o,
   Inv2a s -> snd (step s o) <> Some XStuck -> Inv2a (fst (step s o)).
 Proof. exact step_inv2a. Qed.
 Print Assumptions C02_reference_sets_step.
 
-Theorem C02_reference_sets_init : Inv2a init.
-Proof. exact inv2a_init. Qed.
-Print Assumptions C02_reference_sets_init.
-
-(* the full statement (outer pins = inner pins of the definition, dropped pins leave their wire
-   first, re-pointing keeps connections by position) is checked by the correspondence run and
-   the Inv2 oracle on the implementation; its Coq proof is not finished: *)
-Definition C02_full : Prop := forall s o,
-  Inv2a s ->
-  (forall n i, (exists ow, assoc i (ipins s n) = Some ow) <->
-               (exists d p, iref s n = Some d /\ par s RPorts p = Some d /\ par s RPins i = Some p)) ->
-  snd (step s o) <> Some XStuck ->
-  let s' := fst (step s o) in
-  forall n i, (exists ow, assoc i (ipins s' n) = Some ow) <->
-              (exists d p, iref s' n = Some d /\ par s' RPorts p = Some d /\ par s' RPins i = Some p).
+(* Not yet a theorem: "re-pointing an instance to a shape-compatible definition keeps every
+   connection on the corresponding pin" (position-wise statement about rekey); it is checked on the
+   implementation by the MirrorPins oracle and by the correspondence of instance pin maps. *)
+Definition C02_repoint_full : Prop := forall s x d d' k,
+  Inv s -> iref s x = Some d -> same_shape s d d' = true ->
+  snd (op_set_reference s x (Some d')) = None ->
+  forall c n, nth_error (pin_pairs s d d') k = Some (c, n) ->
+  pin_wire (fst (op_set_reference s x (Some d'))) (POut x n) = pin_wire s (POut x c).
